@@ -163,8 +163,11 @@ def check_result(h, eom, hyd, log, st, res, vmin_in, vmax_in):
         b=res.velocityProfile == ("v", frozenset([last["k"]]))
         and res.temperatureProfile == ("T", frozenset([last["k"]]))
         and res.deltaF == ("deltaF", frozenset([last["k"]]))))
-    fl = [f.term() if hasattr(f, "term") else z3.BoolVal(bool(f)) for f in last["flags"]]
-    h.prove("success reads the flags left by the final evaluation", Cond(z=z3.And(fl)))
+    if h.mode == "sym":
+        fl = [f.term() if hasattr(f, "term") else z3.BoolVal(bool(f)) for f in last["flags"]]
+        h.prove("success reads the flags left by the final evaluation", Cond(z=z3.And(fl)))
+    else:
+        h.prove("success reads the flags left by the final evaluation", Cond(b=all(bool(f) for f in last["flags"])))
     h.prove("the brentq root is returned unchanged", Cond(b=_same(v, st.last_root)))
     h.prove("T- and T+ inside the tabulated ranges", AND(
         ge(res.temperatureMinus, hyd.TMinLowT), le(res.temperatureMinus, hyd.TMaxLowT),
